@@ -71,7 +71,7 @@ def gen_small(rng, tag):
     return ["-sorted"] + toks, shape, kind, fixed
 
 
-def check_run(st, sb, roots, toks, kind, tagset, rc, out, err, log, script, rp, label, strace_log=None, missing=False):
+def check_run(st, sb, roots, toks, kind, tagset, rc, out, err, log, script, rp, label, strace_log=None, missing=False, tool_dirs=None):
     ast, renv, per_root = reference(sb, roots, toks)
     inv = xref.read_reclog(log)
     problems = []
@@ -86,6 +86,8 @@ def check_run(st, sb, roots, toks, kind, tagset, rc, out, err, log, script, rp, 
         exp_by_tag[node[2][1]] = (node, items)
     for tag, (node, items) in exp_by_tag.items():
         fixed = list(node[2][1:])           # tag + fixed arguments
+        if tool_dirs is not None:
+            items = [it for it in items if (it[0] or "") in tool_dirs]      # batches of the other directories cannot be started
         runs = by_tag.get(tag, [])
         flat = []
         for seq, cwd, a in runs:
@@ -115,6 +117,7 @@ def check_run(st, sb, roots, toks, kind, tagset, rc, out, err, log, script, rp, 
         want = [arg for (d, arg, p) in items]
         if missing:
             want = []
+
         if flat != want and not problems:
             if sorted(flat) == sorted(want):
                 problems.append("paths delivered in another order than the visit order")
@@ -143,6 +146,10 @@ def check_run(st, sb, roots, toks, kind, tagset, rc, out, err, log, script, rp, 
                     st.inc("invocations_killed_by_signal")
     if missing:
         failed = any(items for _, (node, items) in renv.plus.items())
+    if tool_dirs is not None:
+        failed = any((d or "") not in tool_dirs for _, (node, items) in renv.plus.items() for (d, arg, p) in items)
+        if failed:
+            st.inc("runs_where_some_batches_cannot_be_started")
     if failed:
         st.inc("runs_with_failing_invocation")
         if rc == 0:
@@ -200,6 +207,15 @@ def small_worker(job):
                     if all(n.path != pth for n in nodes):
                         nodes.append(treegen.Node(pth, rng.choice(["f", "f", "d"])))
                 st.inc("trees_with_non_utf8_names")
+            # one run in eight: -execdir ./tool ... {} + where only some directories contain the tool - a batch that cannot be started
+            # (and says so) must not keep the batches of later directories from running
+            tool_dirs = None
+            if rng.random() < 0.125:
+                tool_dirs = set()
+                for dn in [n.path for n in nodes if n.kind == "d"]:
+                    if rng.random() < 0.55 and all(n.path != dn + "/tool" for n in nodes):
+                        nodes.append(treegen.Node(dn + "/tool", "l", target=common.REC))
+                        tool_dirs.add(dn)
             try:
                 treegen.build(sb, nodes)
             except OSError:
@@ -207,6 +223,13 @@ def small_worker(job):
                 continue
             tag = "X%d_%d" % (k, t)
             toks, shape, kind, fixed = gen_small(rng, tag)
+            if tool_dirs is not None:
+                if rng.random() < 0.5:
+                    os.symlink(common.REC, os.path.join(sb, "tool"))       # the directory the starting point itself lives in
+                    tool_dirs.add("")
+                toks = [("-execdir" if x == "-exec" else "./tool" if x == common.REC else x) for x in toks]
+                kind = "-execdir"
+                st.inc("runs_with_a_tool_that_exists_in_some_directories_only")
             roots = ["r"]
             dirs = [n.path for n in nodes if n.kind == "d" and n.path != "r" and not any(0xDC80 <= ord(ch) <= 0xDCFF for ch in n.path)]
             if dirs and rng.random() < 0.25:
@@ -215,7 +238,9 @@ def small_worker(job):
             script = None
             missing = False
             r = rng.random()
-            if r < 0.35:
+            if tool_dirs is not None:
+                pass
+            elif r < 0.35:
                 script = ",".join(rng.choice(["0", "0", "0", "1", "2", "255", "k9", "k15"]) for _ in range(40))
                 if rng.random() < 0.3:
                     # exactly one invocation dies from a signal, everything else succeeds
@@ -238,7 +263,7 @@ def small_worker(job):
             else:
                 if missing:
                     st.inc("missing_command_runs")
-                check_run(st, sb, roots, toks, kind, None, rc, out, err, log, script, rp, "small/" + shape, missing=missing)
+                check_run(st, sb, roots, toks, kind, None, rc, out, err, log, script, rp, "small/" + shape, missing=missing, tool_dirs=tool_dirs)
             if t % 17 == 0:
                 st.sample({"args": ["find"] + roots + toks, "exit": rc})
             common.force_rmtree(sb)
